@@ -186,10 +186,31 @@ def prior_px(px):
     return [[p[0], p[1]] + [v + 2 for v in p[2:]] for k, p in enumerate(px) if k % 2 == 0]
 
 
+def relayout(table):
+    """The same bins cut into chromosomes differently (the chromosome lengths in reverse order) - None if that is the same."""
+    lens = chrom_lens(table)
+    widths = {e - s for _, s, e in table}
+    if len(lens) < 2 or lens == lens[::-1] or len(widths) != 1:
+        return None
+    t2 = binnify(lens[::-1], widths.pop())
+    return t2 if len(t2) == len(table) else None
+
+
 def read_everything(uri):
-    """What an earlier stage of a pipeline may have done with the path: read it completely through the public API."""
+    """What an earlier stage of a pipeline may have done with the path: read it completely through the public API (and
+    balance it, cis-only and genome-wide, without storing)."""
+    import warnings
+
     import cooler
     c = cooler.Cooler(uri)
+    if c.storage_mode == "symmetric-upper":
+        with warnings.catch_warnings():
+            warnings.simplefilter("ignore")
+            for kw in ({"cis_only": True}, {"trans_only": True}, {}):
+                try:
+                    cooler.balance_cooler(c, ignore_diags=False, mad_max=0, min_nnz=0, max_iters=3, chunksize=4, **kw)
+                except Exception:
+                    pass
     c.matrix(balance=False)[:, :]
     c.matrix(balance=False, sparse=True)[:, :]
     c.matrix(balance=False, as_pixels=True)[:, :]
@@ -207,16 +228,17 @@ def place(path, table, px, mode="symm", at=None, cols=("count",), names=None, pr
     collection with other content at the root of the same file.  With `prior`, the same URI first holds ANOTHER collection
     (other pixels, other row offsets) that is read completely through the API in this process before it is replaced.
     Returns the URI of the real collection."""
+    ptable = (relayout(table) or table) if prior == "relayout" else table
     if not at or at == "/":
         if prior:
-            make_cooler(path, table, prior_px(px), mode, cols, names, **kw)
+            make_cooler(path, ptable, prior_px(px), mode, cols, names, **kw)
             read_everything(path)
         make_cooler(path, table, px, mode, cols, names, **kw)
         return path
     make_cooler(path, decoy_table(table), decoy_px(px), mode, cols, DECOY_NAMES, **kw)      # other names, too
     uri = path + "::" + at
     if prior:
-        make_cooler(uri, table, prior_px(px), mode, cols, names, mode_="a", **kw)
+        make_cooler(uri, ptable, prior_px(px), mode, cols, names, mode_="a", **kw)
         read_everything(uri)
     make_cooler(uri, table, px, mode, cols, names, mode_="a", **kw)
     return uri
